@@ -96,9 +96,9 @@ def generate(rng, tier):
                     pool = mesh_raw
                 else:
                     pool = [c[0] for c in p["part"]["columns"]] if p["part"] else ["mass"]
-                kk = rng.choice([1, 1, 2, 3, 5, 8])
+                kk = rng.choice([1, 1, 2, 3, 5, 8, 0])  # (0: the empty subset -- the group comes back without members)
                 names = rng.sample(pool, min(kk, len(pool)))
-                if rng.random() < 0.5 and g == "mesh":
+                if kk and rng.random() < 0.5 and g == "mesh":
                     for must in ("level", "dx") + tuple("position_" + c for c in "xyz"[: p["ndim"]]):
                         if must not in names:
                             names.append(must)
